@@ -165,6 +165,20 @@ def decl_pairs(tier):
                 add("width: wrong type after a correct view of the same range", base,
                     [field("st", [(2, 4)], T_uint(3), access="r"), field("x", [(2, 4)], T_uint(4), access="w")],
                     [field("st", [(2, 4)], T_uint(3), access="r"), field("x", [(2, 4)], T_uint(3), access="w")])
+            # fields without an access specifier (reserved / padding) are bound by the same rules
+            if base >= 8:
+                add("no access: range beyond the base", base, [field("x", [(base - 4, base + 3)], T_uint(8), access="")], [field("x", [(base - 8, top)], T_uint(8), access="")])
+                add("no access: type wider than the bits", base, [field("x", [(4, 7)], T_uint(8), access="")], [field("x", [(4, 7)], T_uint(4), access="")])
+                add("no access: one-element array", base, [field("x", [(0, 3)], T_uint(4), access="", array={"k": 1, "stride": None})], [field("x", [(0, 3)], T_uint(4), access="", array={"k": 2, "stride": None})])
+                add("no access: stride below the width", base, [field("x", [(0, 3)], T_uint(4), access="", array={"k": 2, "stride": 2})], [field("x", [(0, 3)], T_uint(4), access="", array={"k": 2, "stride": 4})])
+                add("no access: array past the base", base, [field("x", [(0, 3)], T_uint(4), access="", array={"k": base // 4 + 1, "stride": None})], [field("x", [(0, 3)], T_uint(4), access="", array={"k": base // 4, "stride": None})])
+                # a range (list) written under the singular attribute name that runs past the base
+                bad = field("x", [(base - 4, base + 3)], T_uint(8), force_list=True)
+                bad["head"] = "bit"
+                add("bounds: list under #[bit] running past the base", base, [bad], [field("x", [(base - 8, top)], T_uint(8), force_list=True)])
+                bad = field("x", [(0, 0), (base - 2, base + 1)], T_uint(5))
+                bad["head"] = "bit"
+                add("bounds: two-entry list under #[bit] running past the base", base, [bad], [field("x", [(0, 0), (base - 4, top)], T_uint(5))])
             add("bounds: non-contiguous array overruns the base", base,
                 [field("x", [(0, 0), (base - 2, base - 2)], T_uint(2), array={"k": 3, "stride": 1})],
                 [field("x", [(0, 0), (base - 2, base - 2)], T_uint(2), array={"k": 2, "stride": 1})])
@@ -215,7 +229,7 @@ def rnd_pairs(tier, seed):
         r = rnd.random()
         base = rnd.choice([8, 16, 32, 64, 128]) if r < 0.5 else rnd.choice([3, 5, 7, 9, 12, 15, 17, 24, 31, 33, 48, 63, 65, 100, 127])
         good = tools["free_field"](base, "x")
-        good["access"] = rnd.choice(["rw", "r", "w"])
+        good["access"] = rnd.choice(["rw", "r", "w", "rw", "r", "w", ""])  # (a field without accessors is validated like any other)
         if not rule_valid(base, good):
             continue
         if not good["array"] and rnd.random() < 0.45:
@@ -323,6 +337,16 @@ def enum_cases(tier):
         out.append(("discriminant 2^N", lit_enum("E", N, "false", [("A", "0", None), ("B", "%d" % full, None)][: 2 if full > 2 else 1] if full > 2 else [("B", "%d" % full, None)]),
                     mk_enum("x", "E", N, [0, full - 1] if full > 2 else [full - 1])))
         out.append(("discriminant 2^N+1", lit_enum("E", N, "false", [("B", "%d" % (full + 1), None)]), mk_enum("x", "E", N, [full - 1])))
+    # the oversized discriminant is not the last variant written / is written with a type suffix under a repr
+    for N in (1, 2, 3, 5, 7):
+        full = 1 << N
+        out.append(("discriminant 2^N+1 written first", lit_enum("E", N, "false", [("Big", "%d" % (full + 1), None), ("A", "0", None)] + ([("B", "1", None)] if N > 1 else [])), None))
+        if N > 1:
+            out.append(("discriminant 2^N written in the middle", lit_enum("E", N, "false", [("A", "0", None), ("Big", "%d" % full, None), ("B", "1", None)]), None))
+        out.append(("repr(u8): suffixed discriminant 2^N", lit_enum("E", N, "false", [("A", "0u8", None), ("Big", "%du8" % full, None)], attrs=("#[repr(u8)]",)), None))
+        if N <= 3:
+            vs = [("V%d" % i, "%du8" % i, None) for i in range(full - 1)] + [("Big", "%du8" % (full + 1), None)]
+            out.append(("repr(u8): 2^N variants, a suffixed one oversized, exhaustive=true", lit_enum("E", N, "true", vs, attrs=("#[repr(u8)]",)), None))
     # the count rules with the arguments written in the other order
     for N in (1, 2, 3):
         full = 1 << N
@@ -635,6 +659,10 @@ def api_cases():
     c.append(("C14", "no builder for incomplete cover without default", "let _ = NoB2::builder();", "let _ = NoB2::ZERO;"))
     c.append(("C14", "no builder for overlapping array elements", "let _ = NoB3::builder();", "let _ = NoB3::DEFAULT;"))
     c.append(("C14", "no builder for a self-overlapping range list", "let _ = NoB4::builder();", "let _ = NoB4::DEFAULT;"))
+    c.append(("C14", "a later step is not available before an earlier one, not even through the bitfield's own with_", "let _ = BD::builder().with_b(arbitrary_int::u4::new(2));", "let _ = BD::builder().with_a(arbitrary_int::u4::new(2));"))
+    c.append(("C14", "the builder type does not hand out the bitfield's accessors", "let _ = BD::builder().a();", "let _ = BD::DEFAULT.a();"))
+    c.append(("C14", "the builder type does not hand out raw_value()", "let _ = BD::builder().with_a(arbitrary_int::u4::new(1)).raw_value();", "let _ = BD::DEFAULT.with_a(arbitrary_int::u4::new(1)).raw_value();"))
+    c.append(("C14", "a chain that skips a field is not a finished value", "let _: B12 = B12::builder().with_hi(arbitrary_int::u6::new(2));", "let _: B12 = B12::ZERO.with_hi(arbitrary_int::u6::new(2));"))
     fullbdv = "BDv::builder().with_a(arbitrary_int::u4::new(1)).with_b(arbitrary_int::u4::new(2)).build()"
     c.append(("C14", "a complete builder state cannot be conjured through a derive passed on to the builder type", "let _: BDv = PartialBDv::default().build();", "let _: BDv = %s;" % fullbdv))
     c.append(("C14", "an intermediate builder state cannot be conjured either", "let _ = PartialBDv::<15>::default();", "let _ = BDv::default();"))
